@@ -450,7 +450,10 @@ func slicesEqual(x, y any) (err error) {
 		// Get primitives out of the way
 		var tried bool
 		if tried, err = primitivesEqual(xv, yv); tried {
-			return
+			if err != nil {
+				return
+			}
+			continue
 		}
 
 		err = valuesEqual(xv, yv)
